@@ -37,7 +37,7 @@ Section Kernels.
       + simpl; auto.
     - intros st Hst. apply sat_ret; auto.
   Qed.
-  Lemma sat_inc_pairs cells : forall prev, sat h0 (inc_pairs prev cells) (Forall (fresh h0)).
+  Lemma sat_inc_pairs cf cells : forall prev, sat h0 (inc_pairs cf prev cells) (Forall (fresh h0)).
   Proof.
     induction cells as [|c r IH]; intros prev; simpl; [apply sat_ret; constructor|].
     eapply sat_bind; [apply sat_get_cell|]. intros xp _.
@@ -46,7 +46,7 @@ Section Kernels.
     eapply sat_bind; [apply sat_new_cell|]. intros nc Fnc.
     eapply sat_bind; [apply IH|]. intros rest Hrest. apply sat_ret; auto.
   Qed.
-  Lemma sat_to_incremental_row cells : sat h0 (to_incremental_row cells) (Forall (fresh h0)).
+  Lemma sat_to_incremental_row cf cells : sat h0 (to_incremental_row cf cells) (Forall (fresh h0)).
   Proof.
     unfold to_incremental_row. destruct cells as [|c0 rest]; [apply sat_ret; constructor|].
     eapply sat_bind; [apply sat_get_cell|]. intros x0 _.
@@ -138,7 +138,7 @@ Section Kernels.
       destruct (length xs0 <=? length picks); [|apply sat_raise].
       eapply sat_bind; [apply sat_new_arr|]. intros; apply sat_ret; auto.
   Qed.
-  Lemma sat_blend_cells cells picks : sat h0 (blend_cells cells picks) (fresh h0).
+  Lemma sat_blend_cells c cells picks : sat h0 (blend_cells c cells picks) (fresh h0).
   Proof.
     unfold blend_cells. destruct cells as [|c0 cr]; [apply sat_raise|].
     eapply sat_bind; [apply sat_mapM_all with (Q := fun _ => True); intros; apply sat_cell_items|].
@@ -309,14 +309,14 @@ Proof.
     destruct (merge_cell_pair c1 c2 h); auto. simpl. apply P; destruct c1, c2; simpl in N; congruence.
   - apply (sat_post h _ _ (sat_overwrite_values h c1 c2 suffix)).
   - apply (sat_post h _ _ (sat_thin_cell h cell ndxs)).
-  - apply (sat_post h _ _ (sat_values_add h cur next)).
-  - apply (sat_post h _ _ (sat_values_diff h prev next)).
+  - apply (sat_post h _ _ (sat_values_add h c cur next)).
+  - apply (sat_post h _ _ (sat_values_diff h c prev next)).
   - apply (sat_post h _ _ (sat_to_cumulative_row h c cells)).
-  - apply (sat_post h _ _ (sat_to_incremental_row h cells)).
+  - apply (sat_post h _ _ (sat_to_incremental_row h c cells)).
   - apply (sat_post h _ _ (sat_aggregate_group h c newtag cells summarize_premium)).
   - apply (sat_post h _ _ (sat_weight_cell_values h c cell weights)).
   - apply (sat_post h _ _ (sat_policy_year_cell h c tag cells shares)).
-  - apply (sat_post h _ _ (sat_blend_cells h cells picks)).
+  - apply (sat_post h _ _ (sat_blend_cells h c cells picks)).
   - apply (sat_post h _ _ (sat_blend_cells_linear h c cells weights)).
 Qed.
 (* the cases where the result IS an argument object *)
@@ -330,16 +330,16 @@ Proof. intros H; destruct c1; try reflexivity; congruence. Qed.
 (* entry level: what the new values dicts hold *)
 Definition entry_spec_combine (h : heap) (dn : items) (kv : key * val) : Prop :=
   if (fst kv =? EP)%Z then dget EP dn = Some (snd kv) else fresh h (snd kv).
-Theorem alias_values_combine : forall op swap h a l dn,
+Theorem alias_values_combine : forall c op swap h a l dn,
   l < length h -> nth_error h l = Some (ODict dn) ->
-  match values_combine op swap a (PRef l) h with
+  match values_combine c op swap a (PRef l) h with
   | Ret _ d => Forall (entry_spec_combine h dn) d
   | Raise _ _ => True
   end.
 Proof.
-  intros op swap h a l dn Hl N.
-  pose proof (sat_post h _ _ (sat_values_combine h op swap a (PRef l))) as P.
-  destruct (values_combine op swap a (PRef l) h); auto. exact (P dn l eq_refl Hl N).
+  intros c op swap h a l dn Hl N.
+  pose proof (sat_post h _ _ (sat_values_combine h c op swap a (PRef l))) as P.
+  destruct (values_combine c op swap a (PRef l) h); auto. exact (P dn l eq_refl Hl N).
 Qed.
 Theorem alias_thin_entries : forall h ndxs d,
   match mapM (thin_value ndxs) d h with
